@@ -2,6 +2,7 @@ package autologin
 
 import (
 	"net/http"
+	pathlib "path"
 	"strings"
 	"sync"
 
@@ -30,6 +31,10 @@ func (a *AutoLogin) NeedsLogin(r *http.Request, isAuthenticated bool) bool {
 	if !strings.HasPrefix(path, "/") {
 		path = "/" + path
 	}
+
+	// match the path as the upstream will resolve it: without dot segments and repeated slashes,
+	// so that e.g. /ignored/../protected is not exempted by a pattern for /ignored/**
+	path = pathlib.Clean(path)
 
 	if path != "/" {
 		path = strings.TrimSuffix(path, "/")
